@@ -18,6 +18,8 @@ const (
 	SigDeferred = "deferred-stream-put-close-reports-duplicate"
 	SigPreFilt  = "openstream-declared-chain-plus-filters"
 	SigHuge     = "writecompressed-more-than-10000-objects-unreadable"
+	SigTrace    = "refused-call-leaves-a-trace-in-the-file"
+	SigStuck    = "writer-unusable-after-a-refused-call"
 )
 
 type Query struct {
@@ -255,7 +257,7 @@ func Check(res *Result) *ReadBack {
 		nums = append(nums, n)
 	}
 	if highMin > 0 {
-		for n := highMin - 1; n <= highMax+extra; n++ {
+		for n := highMin - 1; n <= highMax+extra && n < 1<<24; n++ {
 			nums = append(nums, n)
 		}
 	}
@@ -281,7 +283,9 @@ func Check(res *Result) *ReadBack {
 		ref := pdf.NewReference(n, gens[n])
 		mode := byte('k')
 		k := 0
-		if w, ok := want[ref]; ok && w.Declared {
+		if w, ok := want[ref]; ok && w.KindOnly {
+			mode = 'k'
+		} else if ok && w.Declared {
 			mode, k = 'c', w.NArgs
 		} else if ok {
 			mode = 'v'
@@ -300,7 +304,9 @@ func Check(res *Result) *ReadBack {
 		w := want[q.Ref]
 		if err != nil {
 			rb.Obs[q.Ref] = "error"
-			if w != nil && w.Declared {
+			if w == nil && res.RefusedRefs[q.Ref] {
+				fail(SigTrace, "the call that was to write %v was refused (%v), the calls behind it and Close were accepted, and the file has something under that number which cannot be read: Get(%v): %v", q.Ref, res.RefusedText, q.Ref, err)
+			} else if w != nil && w.Declared {
 				fail(SigPreFilt, "%v: %v", q.Ref, err)
 			} else if res.HugeBatch && strings.Contains(err.Error(), "no valid /N") {
 				fail(SigHuge, "WriteCompressed accepted more than 10000 objects; the Reader refuses the object stream: Get(%v): %v", q.Ref, err)
@@ -349,8 +355,14 @@ func Check(res *Result) *ReadBack {
 		// the direct oracle
 		switch {
 		case w == nil:
-			if _, user := gens[q.Ref.Number()]; (user || q.Mode == 'v') && got != nil {
+			if res.RefusedRefs[q.Ref] && got != nil {
+				fail(SigTrace, "the call that was to write %v was refused (%v), yet the file has an object under that number: %s", q.Ref, res.RefusedText, pdf.AsString(got))
+			} else if _, user := gens[q.Ref.Number()]; (user || q.Mode == 'v') && got != nil {
 				fail("unwritten-not-null", "%v was never written (under this generation) and reads %s", q.Ref, pdf.AsString(got))
+			}
+		case w.KindOnly:
+			if !isStream {
+				fail("roundtrip-stream", "%v: stream reads as %T", q.Ref, got)
 			}
 		case w.Declared:
 			// the caller's data was encoded with the chain its dictionary declares; OpenStream
@@ -425,6 +437,7 @@ func (res *Result) Describe() map[string]any {
 	return map[string]any{
 		"config": res.Cfg.String(),
 		"ops":    res.Desc,
+		"refused": res.RefusedText,
 		"case":   res.CaseLine(),
 	}
 }
